@@ -1168,4 +1168,44 @@ theorem expression_writing_irrelevant (k k' : Nat) (e : Expr) (s s' : Str) (hsp 
   simp only [Dpd.ofExpr] at h1 h2
   rw [h1, h2]
 
+/-- **what carries no meaning in an instruction line**: two writings with the same operation name
+    up to letter case and operands of the same VALUE — a register as `r16` or `R16`, a number in
+    any radix, an expression with other blanks or further parentheses, an index form in either
+    letter case — whatever the indentation, the blanks after the name, around every comma and at
+    the end, and whatever comment (or none) follows, parse to the same thing -/
+theorem instruction_line_spelling_irrelevant
+    (ws1 ws1' n n' wsA wsA' : Str) (o o' : Opd) (more more' : List (Str × Str × Opd)) (ws2 ws2' c c' : Str)
+    (hws1 : blanks ws1) (hws1' : blanks ws1') (hn : isName n) (hn' : isName n') (hcase : lower n = lower n')
+    (hwsA : blanks wsA) (hwsA' : blanks wsA') (hA : wsA ≠ []) (hA' : wsA' ≠ [])
+    (hg : o.ok) (hg' : o'.ok) (hval : o.val = o'.val) (hm : opdsOk more) (hm' : opdsOk more')
+    (hsame : more.map (fun x => x.2.2.val) = more'.map (fun x => x.2.2.val))
+    (hws2 : blanks ws2) (hws2' : blanks ws2') (hc : lineEnd c) (hc' : lineEnd c') :
+    parseLine (ws1 ++ (n ++ (wsA ++ (o.text ++ (opdTail more ++ (ws2 ++ c)))))) =
+    parseLine (ws1' ++ (n' ++ (wsA' ++ (o'.text ++ (opdTail more' ++ (ws2' ++ c')))))) := by
+  unfold parseLine
+  rw [operands_instruction_line ws1 n wsA o more ws2 c hws1 hn hwsA hA hg hm hws2 hc,
+      operands_instruction_line ws1' n' wsA' o' more' ws2' c' hws1' hn' hwsA' hA' hg' hm' hws2' hc', hsame, hval, hcase]
+
+/-- the same for directive lines -/
+theorem directive_line_spelling_irrelevant (lab : Option Str) (labText ws1 ws1' name wsA wsA' : Str) (o o' : Dpd)
+    (more more' : List (Str × Str × Dpd)) (ws2 ws2' c c' : Str)
+    (hlabel : (lab = none ∧ labText = []) ∨ ∃ l, isName l ∧ lab = some (lower l) ∧ labText = l ++ [':'])
+    (hws1 : blanks ws1) (hws1' : blanks ws1') (hname : name ≠ []) (hlow : ∀ ch ∈ name, isLowerAlpha ch = true)
+    (hwsA : blanks wsA) (hwsA' : blanks wsA') (hA : wsA ≠ []) (hA' : wsA' ≠ []) (hg : o.ok) (hg' : o'.ok) (hval : o.val = o'.val)
+    (hm : dpdsOk more) (hm' : dpdsOk more')
+    (hlead : LeadOk (o.text ++ (dpdTail more ++ (ws2 ++ c)))) (hlead' : LeadOk (o'.text ++ (dpdTail more' ++ (ws2' ++ c'))))
+    (hsame : more.map (fun x => x.2.2.val) = more'.map (fun x => x.2.2.val))
+    (hws2 : blanks ws2) (hws2' : blanks ws2') (hc : lineEnd c) (hc' : lineEnd c') :
+    parseLine (labText ++ (ws1 ++ ('.' :: (name ++ (wsA ++ (o.text ++ (dpdTail more ++ (ws2 ++ c)))))))) =
+    parseLine (labText ++ (ws1' ++ ('.' :: (name ++ (wsA' ++ (o'.text ++ (dpdTail more' ++ (ws2' ++ c')))))))) := by
+  unfold parseLine
+  rw [operands_directive_line lab labText ws1 name wsA o more ws2 c hlabel hws1 hname hlow hwsA hA hg hm hlead hws2 hc,
+      operands_directive_line lab labText ws1' name wsA' o' more' ws2' c' hlabel hws1' hname hlow hwsA' hA' hg' hm' hlead' hws2' hc', hsame, hval]
+
+/-- registers in either letter case, numbers in any spelling: operands of the same value -/
+example (k : Nat) : (Opd.ofItem (.reg false k)).val = (Opd.ofItem (.reg true k)).val := rfl
+example (t t' : Str) (n : Nat) : (Opd.ofItem (.num t n)).val = (Opd.ofItem (.num t' n)).val := rfl
+example (e : Expr) (s s' : Str) : (Opd.ofExpr e s).val = (Opd.ofExpr e s').val := rfl
+example (r : Reg16) : (Opd.postInc false r).val = (Opd.postInc true r).val := rfl
+
 end Avra.Props.C14
